@@ -67,6 +67,17 @@ func (StdEng) denseRepeat(t, reuse DenseTensor, newShape Shape, axis, size int, 
 	if err != nil {
 		return nil, errors.Wrapf(err, "Repeat reuse is not a *Dense")
 	}
+
+	// the loops below read the storage of the source block by block, as the row-major listing of its elements.
+	// A source that is stored in any other way is copied into that form first
+	if !storedRowMajor(t) {
+		tmp := recycledDense(t.Dtype(), t.Shape().Clone(), WithEngine(t.Engine()))
+		if _, err = copyDenseIter(tmp, t, nil, nil); err != nil {
+			return nil, errors.Wrap(err, "Unable to copy the source of Repeat")
+		}
+		t = tmp
+	}
+
 	var outers int
 	if t.IsScalar() {
 		outers = 1
@@ -123,6 +134,16 @@ func (StdEng) denseRepeat(t, reuse DenseTensor, newShape Shape, axis, size int, 
 		}
 	}
 	return d, nil
+}
+
+// storedRowMajor reports whether the storage of t is the row-major listing of its elements: not a
+// non-contiguous view, no pending transpose, not column-major
+func storedRowMajor(t DenseTensor) bool {
+	if t.len() == 1 {
+		return true
+	}
+	o := t.DataOrder()
+	return o.IsContiguous() && !o.IsColMajor() && t.oldAP().IsZero()
 }
 
 func (e StdEng) fastCopyDenseRepeat(src DenseTensor, dest *Dense, outers, size, stride, newStride int, repeats []int) error {
